@@ -56,7 +56,7 @@ def check_lines(prog, rep):
             return
         align = None
         for fct in sm.facts:
-            if fct[0] == "variant" and set(fct[2]) <= set(al.values()) and len(fct[2]) == 1 and "self" in show(fct[1]):
+            if fct[0] == "variant" and set(fct[2]) <= set(al.values()) and len(fct[2]) == 1 and ("self" in show(fct[1]) or "alignment" in show(fct[1])):
                 align = fct[2][0]
         text_out, p = m["?text"], m["?p"]
         meas = [n for n in walk(p) if n[0] == "call" and n[1].endswith("measure_string")]
